@@ -30,6 +30,17 @@ CHECKS = {
         ref="5/C13"),
 }
 
+CHECKS["C05"] = dict(
+    text="Machine-checked proof (Coq) that the model of the mempool's outpoint index refines an index-free reference "
+         "(list of held bodies, spenders found by scanning) on every operation sequence; index exactness invariant; "
+         "add returns exactly the conflicting held txs, no false conflicts after removals/evictions. Correspondence "
+         "check runs the real state.MemPool on generated sequences incl. all arrival orders of a 4-tx pattern. Node "
+         "level (both txs reported unsafe) is covered by the TxFlow suite.",
+    note="Trusted: Coq kernel, hand-written model validated by correspondence; txid/outpoint hashes are ids; MemPool "
+         "methods atomic under memPool.mutex.",
+    technique="Coq refinement proof + model/implementation correspondence",
+    ref="5/C05")
+
 NOT_APPLICABLE = {}
 
 
